@@ -198,6 +198,24 @@ func init() {
 		tb, _ := termOf(c.b, args[2])
 		return mkSV(c.b.Ite(asBoolTerm(c.b, args[0]), ta, tb), types.Uint64)
 	})
+	reg("vrt.IteU32", func(fr *frame, args []value) value {
+		c := fr.i.ctx
+		ta, _ := termOf(c.b, args[1])
+		tb, _ := termOf(c.b, args[2])
+		return mkSV(c.b.Ite(asBoolTerm(c.b, args[0]), ta, tb), types.Uint32)
+	})
+	reg("vrt.IteU16", func(fr *frame, args []value) value {
+		c := fr.i.ctx
+		ta, _ := termOf(c.b, args[1])
+		tb, _ := termOf(c.b, args[2])
+		return mkSV(c.b.Ite(asBoolTerm(c.b, args[0]), ta, tb), types.Uint16)
+	})
+	reg("vrt.IteInt", func(fr *frame, args []value) value {
+		c := fr.i.ctx
+		ta, _ := termOf(c.b, args[1])
+		tb, _ := termOf(c.b, args[2])
+		return mkSV(c.b.Ite(asBoolTerm(c.b, args[0]), ta, tb), types.Int)
+	})
 	reg("vrt.BytesEq", func(fr *frame, args []value) value {
 		a, b := args[0].([]value), args[1].([]value)
 		if len(a) != len(b) {
@@ -230,6 +248,29 @@ func init() {
 	reg("vrt.Tag", func(fr *frame, args []value) value {
 		fr.i.ctx.tags = append(fr.i.ctx.tags, args[0].(string))
 		return nil
+	})
+	reg("vrt.Summarize", func(fr *frame, args []value) value {
+		name := args[0].(string)
+		if name == "crc32_write" {
+			fr.i.summaries["cgo:crc32_write"] = "fold"
+			return nil
+		}
+		if fr.i.env.byName[name] == nil {
+			panic(engineAbort{psEngineError, "Summarize: no function " + name})
+		}
+		fr.i.summaries[name] = "fold"
+		return nil
+	})
+	reg("vrt.BytesLen", func(fr *frame, args []value) value {
+		if s, ok := args[1].(sv); ok {
+			return lenOnly{s}
+		}
+		n := asInt64(args[1])
+		r := make([]value, n)
+		for i := range r {
+			r[i] = uint8(0)
+		}
+		return r
 	})
 	reg("vrt.Tier", func(fr *frame, args []value) value { return fr.i.env.Tier })
 	reg("vrt.Harness", func(fr *frame, args []value) value { return "" })
@@ -614,7 +655,7 @@ func init() {
 	// time
 	reg("time.Now", func(fr *frame, args []value) value { return fr.i.timeValue(fr.i.sched.clock) })
 	reg("time.Since", func(fr *frame, args []value) value {
-		return fr.i.sched.clock - fr.i.timeNanos(args[0])
+		return binop(token.SUB, nil, fr.i.sched.clock, timeNs(args[0]))
 	})
 	reg("time.Sleep", func(fr *frame, args []value) value {
 		s := fr.i.sched
@@ -648,12 +689,18 @@ func init() {
 		return c
 	})
 	reg("time.Unix", func(fr *frame, args []value) value {
+		if isSym(args[0]) || isSym(args[1]) {
+			return structure{uint64(0), binopAdd(binop(token.MUL, nil, args[0], int64(1e9)), args[1]), (*value)(nil)}
+		}
 		return fr.i.timeValue(asInt64(args[0])*1e9 + asInt64(args[1]))
 	})
-	reg("(time.Time).Unix", func(fr *frame, args []value) value { return fr.i.timeNanos(args[0]) / 1e9 })
-	reg("(time.Time).UnixNano", func(fr *frame, args []value) value { return fr.i.timeNanos(args[0]) })
+	reg("vrt.ExactFmt", func(fr *frame, args []value) value { fr.i.exactFmt = args[0].(bool); return nil })
+	reg("(time.Time).Unix", func(fr *frame, args []value) value {
+		return binop(token.QUO, nil, timeNs(args[0]), int64(1e9))
+	})
+	reg("(time.Time).UnixNano", func(fr *frame, args []value) value { return timeNs(args[0]) })
 	reg("(time.Time).Sub", func(fr *frame, args []value) value {
-		return fr.i.timeNanos(args[0]) - fr.i.timeNanos(args[1])
+		return binop(token.SUB, nil, timeNs(args[0]), timeNs(args[1]))
 	})
 	reg("(time.Time).Before", func(fr *frame, args []value) value {
 		return fr.i.timeNanos(args[0]) < fr.i.timeNanos(args[1])
@@ -678,6 +725,8 @@ func (i *interpreter) timeNanos(v value) int64 {
 	s := v.(structure)
 	return asInt64(s[1])
 }
+
+func timeNs(v value) value { return v.(structure)[1] }
 
 func goName(fr *frame, fn value) string {
 	switch f := fn.(type) {
@@ -852,4 +901,48 @@ func init() {
 		initSizes(st, (*it.v.(*value)).(structure))
 		return iface{}
 	})
+}
+
+// lenOnly is a byte slice of symbolic length whose contents are never inspected
+// (only len/cap are supported): used by arithmetic kernels over sizes.
+type lenOnly struct{ n sv }
+
+// summarizedCall replaces a pure byte-folding function (FNV, CRC) by a chain of
+// uninterpreted step applications: result = step(...step(step(init, b0), b1)...).
+// Equal inputs give equal outputs; nothing else is known about the function.
+// The function's own behaviour is checked separately (C16).
+func summarizedCall(fr *frame, fn *ssa.Function, kind string, args []value) value {
+	c := fr.i.ctx
+	b := c.b
+	bytes, ok := args[0].([]value)
+	if !ok || len(args) != 1 {
+		panic(engineAbort{psInconclusive, "summary of " + fn.String() + ": unsupported signature"})
+	}
+	name := "sum:" + fn.String()
+	h := b.UF(name+":init", 32)
+	for _, x := range bytes {
+		if _, bad := x.(poison); bad {
+			panic(memError("read of freed C memory"))
+		}
+		tx, _ := termOf(b, x)
+		h = b.UF(name+":step", 32, h, tx)
+	}
+	return mkSV(h, types.Uint32)
+}
+
+func crcFoldSummary(fr *frame, crc value, mem []value, n int) value {
+	c := fr.i.ctx
+	b := c.b
+	h, _ := termOf(b, crc)
+	if n > len(mem[:cap(mem)]) {
+		panic(memError("crc32_write reads past the end of the buffer"))
+	}
+	for _, x := range mem[:cap(mem)][:n] {
+		if _, bad := x.(poison); bad {
+			panic(memError("read of freed C memory"))
+		}
+		tx, _ := termOf(b, x)
+		h = b.UF("sum:crc32:step", 32, h, tx)
+	}
+	return mkSV(h, types.Uint32)
 }
